@@ -237,6 +237,7 @@ publish = false
 [dependencies]
 peginator = {{ path = "{repo}/runtime" }}
 vfrt = {{ path = "{rust}/vfrt" }}
+{extra_deps}
 
 [profile.dev]
 debug = false
@@ -251,7 +252,7 @@ incremental = false
 """
 
 
-def write_batch_crate(crate_dir, batches, forbid_unsafe=True):
+def write_batch_crate(crate_dir, batches, forbid_unsafe=True, macro_dep=False):
     """batches: list of (bin_name, [GrammarUnit]); GrammarUnit has .gidx (global), .code_path, .exports
     (list of (rule, has_position)), .ctx (bool), .extra_rust (assertion module text or '')"""
     os.makedirs(crate_dir, exist_ok=True)
@@ -283,7 +284,8 @@ def write_batch_crate(crate_dir, batches, forbid_unsafe=True):
             f.write("\n".join(main) + "\n")
         bins.append('[[bin]]\nname = "%s"\npath = "%s/main.rs"\n' % (name, name))
     with open(os.path.join(crate_dir, "Cargo.toml"), "w") as f:
-        f.write(BATCH_CARGO.format(repo=REPO, rust=RUST, bins="\n".join(bins)))
+        f.write(BATCH_CARGO.format(repo=REPO, rust=RUST, bins="\n".join(bins),
+                                   extra_deps=('peginator_macro = { path = "%s/macro" }' % REPO) if macro_dep else ""))
 
 
 def build_batch_crate(crate_dir, target_dir, rustflags, toolchain=None, extra=(), env=None, timeout=3600):
